@@ -25,7 +25,7 @@ def link_spec(w, kind, h):
     return h * w.step(h)
 
 
-def gen_hetero(w, kind, regime):
+def gen_hetero(w, kind, regime, Dx="Dx"):
     """regime 'square': A [1,D,D] invertible, Dk = Da = Dy;  'wide': A = [A_k | A_r] [1,Dy,Dk+Dr], Da > Dy"""
     AC = SP.mods()["approximate_conditional"]
     xp = w.xp
@@ -50,8 +50,8 @@ def gen_hetero(w, kind, regime):
         Ak, Ar = w.arr("Ak", 1, "Dy", "Dk"), w.arr("Ar", 1, "Dy", "Dr")
         A = xp.concatenate([Ak, Ar], axis=2)
         Ai = None
-    M, b = w.arr("Mh", 1, Dy, "Dx"), w.arr("bh", 1, Dy)
-    wv, w0 = w.arr("wv", Dk, "Dx"), w.arr("w0", Dk)
+    M, b = w.arr("Mh", 1, Dy, Dx), w.arr("bh", 1, Dy)
+    wv, w0 = w.arr("wv", Dk, Dx), w.arr("w0", Dk)
     W = xp.concatenate([w0[:, None], wv], axis=1)
     obj = cls(M=M, b=b, A=A, W=W)                                       # REAL constructor
     return obj, dict(A=A, Ak=Ak, Ai=Ai, M=M, b=b, wv=wv, w0=w0)
@@ -107,11 +107,11 @@ G6 = ["G6 variational bounds: log(1+e^h) <= h/2 + f(w) + f'(w)/(2w) (h^2 - w^2),
       "G2 Isserlis/Wick"]
 
 
-def _row(w, name):
+def _row(w, name, Dx="Dx"):
     """one row W_i = (w0, w) of the noise weights as the library passes it to k_func: a vector over 1 + Dx"""
     xp = w.xp
     w0 = w.arr(name + "0", 1)
-    wv = w.arr(name, "Dx")
+    wv = w.arr(name, Dx)
     return xp.concatenate([w0, wv], axis=0), w0, wv
 
 
@@ -237,16 +237,16 @@ def _mk_heaviside_logdet():
     return ob
 
 
-def _mk_heaviside_term():
-    """step link, one noise unit: get_lb_heteroscedastic_term_i EQUALS 1/2 E[g^2 1[h >= 0]] for the jointly Gaussian pair
+def _mk_heaviside_term(Dx="Dx"):
+    """step link, one noise unit (Dx = 1 is a separate branch of the code: x = (h - w0)/w): get_lb_heteroscedastic_term_i EQUALS 1/2 E[g^2 1[h >= 0]] for the jointly Gaussian pair
     g = a'(y - Mx - b), h = w'x + w0 -- from the conditional law of g given h (G3) and the truncated moments of h (G4)"""
     def ob(w):
         xp = w.xp
         w.literal_arange = True
-        obj, par = gen_hetero(w, "heaviside", "square")
-        p_x, px = SP.gen_pdf(w, "x", "N", "Dx")
+        obj, par = gen_hetero(w, "heaviside", "square", Dx)
+        p_x, px = SP.gen_pdf(w, "x", "N", Dx)
         y = w.arr("y", "N", "Dy")
-        W_i, w0, wv = _row(w, "wi")
+        W_i, w0, wv = _row(w, "wi", Dx)
         a_i = w.arr("ai", "Dy")
         val = obj.get_lb_heteroscedastic_term_i(p_x, y, W_i, a_i)         # REAL  [1, N]
         M, b = par["M"][0], par["b"][0]
@@ -292,6 +292,10 @@ def _mk_heaviside_quadratic():
     return ob
 
 
+REG.ob("HeteroscedasticHeavisideConditional.get_lb_heteroscedastic_term_i/Dx=1", sorts=["N", "Dy"], order={("Dy", "Dy"): False},
+       funcs=["approximate_conditional.HeteroscedasticHeavisideConditional.get_lb_heteroscedastic_term_i", "pdf.GaussianPDF.get_density_of_linear_sum",
+              "experimental.truncated_measure.TruncatedGaussianMeasure.integrate_x", "experimental.truncated_measure.TruncatedGaussianMeasure.integrate_x_pow_2"],
+       axioms=["G1 Gaussian integral", "G3 conditional law of a jointly Gaussian pair", "G4 truncated Gaussian integrals"])(_mk_heaviside_term(1))
 REG.ob("HeteroscedasticHeavisideConditional.get_lb_heteroscedastic_term_i", sorts=["N", "Dx", "Dy"], order={("Dy", "Dy"): False},
        funcs=["approximate_conditional.HeteroscedasticHeavisideConditional.get_lb_heteroscedastic_term_i", "pdf.GaussianPDF.get_density_of_linear_sum",
               "pdf.GaussianPDF.get_marginal", "pdf.GaussianPDF.condition_on_explicit",
@@ -357,14 +361,14 @@ def _mk_relu_kfunc():
     return ob
 
 
-def _mk_relu_lb_integrals(fourth):
+def _mk_relu_lb_integrals(fourth, Dx="Dx"):
     def ob(w):
         xp = w.xp
         w.literal_arange = True
-        obj, par = gen_hetero(w, "relu", "square")
-        p_x, px = SP.gen_pdf(w, "x", "N", "Dx")
+        obj, par = gen_hetero(w, "relu", "square", Dx)
+        p_x, px = SP.gen_pdf(w, "x", "N", Dx)
         y = w.arr("y", "N", "Dy")
-        W_i, w0, wv = _row(w, "wi")
+        W_i, w0, wv = _row(w, "wi", Dx)
         a_i = w.arr("ai", "Dy")
         om = w.pos("om", "N")
         if fourth:
@@ -401,6 +405,10 @@ REG.ob(f"{_RC}.k_func", sorts=["N", "Dx", "Dy"], order={("Dy", "Dy"): False},
               "experimental.truncated_measure.TruncatedGaussianMeasure.integral", "experimental.truncated_measure.TruncatedGaussianMeasure.integrate_x"],
        axioms=G6R)(_mk_relu_kfunc())
 for _fourth in (False, True):
+    REG.ob(f"{_RC}._lower_bound_integrals/fourth_order={_fourth}/Dx=1", sorts=["N", "Dy"], order={("Dy", "Dy"): False},
+           funcs=[f"approximate_conditional.{_RC}._lower_bound_integrals", "pdf.GaussianPDF.get_density_of_linear_sum",
+                  "factor.LinearFactor._hadamard_with_measure", "experimental.truncated_measure.TruncatedGaussianMeasure.integrate_x_pow_k"],
+           axioms=G6R)(_mk_relu_lb_integrals(_fourth, 1))
     REG.ob(f"{_RC}._lower_bound_integrals/fourth_order={_fourth}", sorts=["N", "Dx", "Dy"], order={("Dy", "Dy"): False},
            funcs=[f"approximate_conditional.{_RC}._lower_bound_integrals", "pdf.GaussianPDF.get_density_of_linear_sum", "pdf.GaussianPDF.get_marginal",
                   "pdf.GaussianPDF.condition_on_explicit", "factor.LinearFactor._hadamard_with_measure",
